@@ -31,6 +31,9 @@ type DecodeResult struct {
 	maxBuffer int
 	skipClose bool
 	unsafe    bool
+	// closed is set once the result has been released so that a repeated Close() does not
+	// put the same object into the pool twice
+	closed bool
 }
 
 // decode parses the data and adds it to the DecodeResult
@@ -118,9 +121,10 @@ func (r *DecodeResult) clone() *DecodeResult {
 // When using with csproto.DecoderModeFast it is important that any strings, bytes, etc that were generated
 // using any of the DecodeResult/FieldData methods have moved out of scope before closing the DecodeResult.
 func (r *DecodeResult) Close() error {
-	if r == nil || r.skipClose {
+	if r == nil || r.skipClose || r.closed {
 		return nil
 	}
+	r.closed = true
 	r.close()
 	return nil
 }
